@@ -221,7 +221,28 @@ def gen_targeted(W, rng, kind=None):
     def bin_(op, a, b):
         return dict(op=op, a=a, b=b, d=d, t=d)
     kind = kind or rng.choice(["sum-absorb", "sum-absorb", "sum-diags", "chain-scal", "chain-scal", "chain-diags", "flip-chain",
-                               "sandwich-scal", "block", "block", "block", "neg-single", "enabler-chain"])
+                               "sandwich-scal", "block", "block", "block", "neg-single", "enabler-chain", "nary", "nary"])
+    if kind == "nary":
+        # SumOperator.make / ChainOperator.make called directly with 3..6 operands: the rules that merge the 2nd, 3rd, .. scaling,
+        # diagonal or block operand into an accumulated one (sign / transformation bookkeeping across several merges) are not
+        # reachable through the binary operators, which simplify after every step
+        n = rng.choice([3, 3, 4, 5, 6])
+        if rng.random() < 0.5:
+            pool = [lambda: diag(), lambda: diag(), lambda: diag(same_dt=False), lambda: scal(), lambda: other()]
+            args = [rng.choice(pool)() for _ in range(n)]
+            neg = [rng.random() < 0.45 for _ in range(n)]
+            if rng.random() < 0.5:
+                neg[0] = True
+            e = dict(op="sumN", args=args, neg=neg, d=d, t=d)
+        else:
+            pool = [lambda: diag(), lambda: diag(), lambda: scal(), lambda: scal(cplx=True), lambda: other()]
+            e = dict(op="chainN", args=[rng.choice(pool)() for _ in range(n)], d=d, t=d)
+        r = rng.random()
+        if r < 0.15:
+            e = dict(op="adjoint", a=e, d=d, t=d)
+        elif r < 0.3:
+            e = bin_(rng.choice(["add", "sub", "matmul"]), e, other())
+        return e
     if kind == "enabler-chain":
         # InversionEnabler around a Hermitian positive definite CHAIN that advertises only TIMES and ADJOINT_INVERSE_TIMES:
         # ADJOINT_TIMES / INVERSE_TIMES are then solved numerically with `chain._flip_modes(3)` / `_flip_modes(1)`
@@ -319,7 +340,7 @@ def walk(e):
     yield e
     for _, c in OW.children(e):
         yield from walk(c)
-    for x in e.get("ents", []) or []:
+    for x in (e.get("ents", []) or []) + (e.get("args", []) or []):
         if isinstance(x, dict):
             yield from walk(x)
 
@@ -449,8 +470,9 @@ def shrink(case):
         e2 = dict(e)
         for k, c in OW.children(e):
             e2[k] = rebuild(c, target, repl)
-        if e.get("ents"):
-            e2["ents"] = [rebuild(x, target, repl) if isinstance(x, dict) else x for x in e["ents"]]
+        for key in ("ents", "args"):
+            if e.get(key):
+                e2[key] = [rebuild(x, target, repl) if isinstance(x, dict) else x for x in e[key]]
         return e2
     for n in walk(s):
         for _, c in OW.children(n):
